@@ -87,6 +87,35 @@ pub fn exec(f: &[&str]) -> Option<String> {
             }
             Some("ok".into())
         }
+        // C01: entry length fields are 28 bits wide: a payload of n bytes (n >= 2^24 exercises the
+        // upper bits) must be encoded with its exact length, decode to itself, and be navigable
+        ["bigpayload", n] => {
+            let n: usize = n.parse().ok()?;
+            let big: String = "abcdefghij".chars().cycle().take(n).collect();
+            let v = jsonb::Value::Array(vec![jsonb::Value::String(std::borrow::Cow::Owned(big.clone())), jsonb::Value::Number(jsonb::Number::UInt64(7))]);
+            let doc = v.to_vec();
+            let want_entry = 0x1000_0000u32 | n as u32;
+            let got_entry = u32::from_be_bytes([doc[4], doc[5], doc[6], doc[7]]);
+            if got_entry != want_entry { return Some(format!("MISMATCH class=entry-length entry word {:08x} expected {:08x}", got_entry, want_entry)); }
+            match jsonb::from_slice(&doc) { Ok(back) => if back != v { return Some("MISMATCH class=entry-length decodes to another value".into()); }, Err(_) => return Some("MISMATCH class=entry-length does not decode".into()) }
+            if jsonb::get_by_index(&doc, 1) != Some(jsonb::Value::Number(jsonb::Number::UInt64(7)).to_vec()) { return Some("MISMATCH class=entry-length element after the big string not found".into()); }
+            let nested = jsonb::Value::Array(vec![v.clone(), jsonb::Value::Bool(true)]).to_vec();
+            if jsonb::get_by_index(&nested, 1) != Some(jsonb::Value::Bool(true).to_vec()) { return Some("MISMATCH class=entry-length element after the big nested container not found".into()); }
+            let mut built = vec![];
+            if jsonb::build_array([doc.as_slice(), jsonb::Value::Null.to_vec().as_slice()], &mut built).is_err() { return Some("MISMATCH class=entry-length build_array failed".into()); }
+            if jsonb::get_by_index(&built, 1) != Some(jsonb::Value::Null.to_vec()) { return Some("MISMATCH class=entry-length builder entry".into()); }
+            Some("ok".into())
+        }
+        // a single-document op on a JSON text and on the encoding of that text
+        ["tjtext", op, text, rest @ ..] => {
+            let t = unhex(text)?;
+            let bin = match jsonb::parse_value(&t) { Ok(v) => hex(&v.to_vec()), Err(_) => return Some("not-applicable".into()) };
+            let mut fa: Vec<&str> = vec![op, text]; fa.extend_from_slice(rest);
+            let mut fb: Vec<&str> = vec![op, &bin]; fb.extend_from_slice(rest);
+            let a = match std::panic::catch_unwind(|| crate::ops::exec_fields(&fa)) { Ok(s) => s, Err(_) => "panic".into() };
+            let b = crate::ops::exec_fields(&fb);
+            if same(op, &b, &a) { Some("ok".into()) } else { Some(format!("MISMATCH text={} jsonb={}", &a[..a.len().min(100)], &b[..b.len().min(100)])) }
+        }
         // D21: a valid array of n elements must be sniffed as JSONB by the public functions
         ["sniffbig", n] => {
             let n: usize = n.parse().ok()?;
